@@ -14,12 +14,30 @@ sed "s#^replace github.com/evanoberholster/imagemeta => .*#replace github.com/ev
 (cd sim && go build -modfile=$B/go.mod -tags verif -o $B/simworker ./cmd/simworker) || { echo "MACHINERY-ERROR build"; exit 2; }
 props=${@:-C01 C02 C03 C04 C05 C06 C07 C08 C09 C10 C11 C12 C13 C14 C15 C19}
 bad=0
+PLAIN=$B/simworker
 for p in $props; do
-  phases=$($B/simworker -info $p | python3 -c "import json,sys;print(json.load(sys.stdin)['phases'])")
+  W=$PLAIN
+  if $PLAIN -info $p | grep -q '"sync_yields":true'; then
+    # this property runs on the instrumented copy (sim/yieldinst), as in the check itself
+    if [ ! -x $B/simworker-sync ]; then
+      (cd sim && go run -modfile=$B/go.mod -tags verif ./cmd/yieldinst ${VERIF_REPO:-/repo} $B/yieldsrc) || { echo "MACHINERY-ERROR instrument"; exit 2; }
+      sed "s#^replace github.com/evanoberholster/imagemeta => .*#replace github.com/evanoberholster/imagemeta => $B/yieldsrc#" sim/go.mod > $B/sync.mod; cp /repo/go.sum $B/sync.sum
+      (cd sim && go build -modfile=$B/sync.mod -tags verif,verifyield -o $B/simworker-sync ./cmd/simworker) || { echo "MACHINERY-ERROR build (instrumented)"; exit 2; }
+    fi
+    W=$B/simworker-sync
+  fi
+  phases=$($W -info $p | python3 -c "import json,sys;print(json.load(sys.stdin)['phases'])")
   echo '{}' > $B/kv.json
   for ph in $(seq 0 $((phases-1))); do
+    # a phase that starts with a fresh-process campaign (the worker exits after each of its runs) is
+    # tested a second time from the campaign behind it
+    for fc in "" $($W -info $p | python3 -c "
+import json,sys
+i=json.load(sys.stdin)
+print(' '.join(c.split(':')[0] for c in i.get('resume_after_fresh',{}).get('$ph',[])))"); do
+    FC=""; [ -n "$fc" ] && FC="-fromcamp $fc"
     run() { # tag procs
-      GOMAXPROCS=$2 $B/simworker -prop $p -tier quick -seed ${VERIF_SEED:-1} -worker 3 -workers 16 -phase $ph -kv $B/kv.json -maxruns $RUNS -rundigests $B/$p-$ph-$1.txt 3>$B/$p-$ph-$1.pipe >$B/$p-$ph-$1.out 2>$B/$p-$ph-$1.err
+      GOMAXPROCS=$2 $W $FC -prop $p -tier quick -seed ${VERIF_SEED:-1} -worker 3 -workers 16 -phase $ph -kv $B/kv.json -maxruns $RUNS -rundigests $B/$p-$ph-$1.txt 3>$B/$p-$ph-$1.pipe >$B/$p-$ph-$1.out 2>$B/$p-$ph-$1.err
     }
     run a 1; run b 4; run c 16; run d 1
     for i in $(seq 1 $REPEAT); do run r$i $((1 + (i%3)*7)) & done; wait
@@ -38,7 +56,8 @@ PY
         echo "NONDETERMINISM property=$p phase=$ph execution=$t:"; diff $B/$p-$ph-a.txt $B/$p-$ph-$t.txt | head -5; bad=1
       fi
     done
-    echo "$p phase $ph: $n runs x $((4+REPEAT)) executions identical=$([ $bad -eq 0 ] && echo yes || echo NO)"
+    echo "$p phase $ph${fc:+ from $fc}: $n runs x $((4+REPEAT)) executions identical=$([ $bad -eq 0 ] && echo yes || echo NO)"
+    done
   done
 done
 [ $bad -eq 0 ] && echo "determinism self-test passed" || { echo "determinism self-test FAILED"; exit 2; }
